@@ -1270,3 +1270,29 @@ Proof.
     apply Forall_map. destruct (shape_paths_inside t Wt) as [Pt St].
     eapply Forall_impl; [|exact (St 0)]. unfold inside, wf_finfo. cbn [snd]. intros a. lia.
 Qed.
+
+(* the same for a design only SOME of whose blocks are in the language: the footprint hypotheses remain only
+   for the other blocks (inl i = false), whose semantics R0 i is arbitrary *)
+Definition mixed_run (G : decls) (progs : nat -> list stmt) (inl : nat -> bool)
+           (R0 : nat -> env bit bool -> env bit bool) (i : nat) : env bit bool -> env bit bool :=
+  if inl i then rtl_run G (progs i) else R0 i.
+Definition mixed_cover_ok (G : decls) (progs : nat -> list stmt) (inl : nat -> bool) (d : design) : bool :=
+  forallb (fun i => negb (inl i) ||
+                    (covers (rds d i) (reads_d G (progs i)) && covers (wrs d i) (writes_d G (progs i)))) (ids d).
+
+Theorem rtl_mixed_schedules_agree (G : decls) (progs : nat -> list stmt) (inl : nat -> bool)
+        (R0 : nat -> env bit bool -> env bit bool) (d : design) :
+  wf_declsb G = true -> wf_design d = true -> sw_ok d = true -> mixed_cover_ok G progs inl d = true ->
+  (forall i, In i (ids d) -> inl i = false -> frame (Bd d R0 i) /\ dep (Bd d R0 i)) ->
+  forall o1 o2, sched_ok d o1 = true -> sched_ok d o2 = true ->
+  forall e, eqe (run_list (Bd d (mixed_run G progs inl R0)) o1 e) (run_list (Bd d (mixed_run G progs inl R0)) o2 e).
+Proof.
+  intros Wb Wd Sw Cv Hout.
+  assert (K : forall i, In i (ids d) ->
+            frame (Bd d (mixed_run G progs inl R0) i) /\ dep (Bd d (mixed_run G progs inl R0) i)).
+  { intros i Hi. unfold mixed_cover_ok in Cv. rewrite forallb_forall in Cv. specialize (Cv i Hi).
+    unfold Bd, mixed_run. destruct (inl i) eqn:E.
+    - cbn [negb orb] in Cv. apply andb_prop in Cv. destruct Cv as [Cr Cw]. apply rtl_blk_footprints; assumption.
+    - exact (Hout i Hi E). }
+  apply (accepted_schedules_agree d (mixed_run G progs inl R0) Wd Sw (fun i Hi => proj1 (K i Hi)) (fun i Hi => proj2 (K i Hi))).
+Qed.
